@@ -19,6 +19,7 @@ type TM struct {
 	next    *tmtypes.ValidatorSet // validators of Next+1
 	First   int64
 	Rejects []string // validator updates Tendermint would have refused (consensus failure)
+	Empty   bool     // the application removed every validator: the chain cannot continue
 }
 
 // NewTM starts the simulated consensus from the InitChain response.
@@ -130,7 +131,14 @@ func (t *TM) EndBlock(updates []abci.ValidatorUpdate) error {
 			err = nn.UpdateWithChangeSet(tv)
 		}
 		if err != nil {
-			t.Rejects = append(t.Rejects, fmt.Sprintf("h=%d: %v", t.Next, err))
+			if nn2 := t.next.Copy(); onlyRemovals(updates) && len(updates) >= nn2.Size() {
+				// every validator left (all switched off / punished): the network is dead, which is
+				// what the application's answer says; not a malformed update list
+				t.Empty = true
+				err = nil
+			} else {
+				t.Rejects = append(t.Rejects, fmt.Sprintf("h=%d: %v", t.Next, err))
+			}
 			nn = t.next.Copy()
 		}
 	}
@@ -148,4 +156,13 @@ func (t *TM) PowerOf(pk types.Pubkey) int64 {
 		return 0
 	}
 	return v.VotingPower
+}
+
+func onlyRemovals(u []abci.ValidatorUpdate) bool {
+	for _, x := range u {
+		if x.Power != 0 {
+			return false
+		}
+	}
+	return true
 }
